@@ -167,12 +167,15 @@ var (
 
 func cached(key string, mk func() []byte) []byte {
 	cacheMu.Lock()
-	defer cacheMu.Unlock()
-	if b, ok := cache[key]; ok {
+	b, ok := cache[key]
+	cacheMu.Unlock()
+	if ok {
 		return b
 	}
-	b := mk()
+	b = mk() // may itself use the cache
+	cacheMu.Lock()
 	cache[key] = b
+	cacheMu.Unlock()
 	return b
 }
 
@@ -209,6 +212,9 @@ func goodJSON(k string, r *rand.Rand) []byte {
 var wrongJSON = []string{`[1,2,3]`, `"just a string"`, `123`, `null`, `true`, `{"CommandType":"x","CommandBody":5}`, `{"client_id":"seven","version":3}`,
 	`{"mapping_id":1,"tunnel_id":{},"target_port":"p"}`, `[[[[[[[[[[[[[[[[[[[[[[[[[[[[[[[[]]]]]]]]]]]]]]]]]]]]]]]]]]]]]]]]`, `{"CommandType":1e400}`, `{"client_id":1e30}`}
 
+var wrongCmdJSON = []string{`[1,2,3]`, `"just a string"`, `123`, `true`, `{"CommandType":"x","CommandBody":5}`, `{"CommandType":1e400}`,
+	`{"CommandId":7}`, `[[[[[[[[[[[[[[[[[[[[[[[[[[[[[[[[]]]]]]]]]]]]]]]]]]]]]]]]]]]]]]]]`}
+
 // content builds the (uncompressed) body content of class pay at exactly n bytes (n < 0: natural size).
 func content(k, pay string, n int, r *rand.Rand) []byte {
 	var b []byte
@@ -226,6 +232,9 @@ func content(k, pay string, n int, r *rand.Rand) []byte {
 		}
 	case "wrong":
 		b = []byte(wrongJSON[r.Intn(len(wrongJSON))])
+		if k == "CMD" || k == "RESP" { // must not fit a CommandPacket (null and objects with foreign members would)
+			b = []byte(wrongCmdJSON[r.Intn(len(wrongCmdJSON))])
+		}
 		if n > len(b) { // a long valid array of numbers
 			out := bytes.Repeat([]byte("0,"), n/2+1)[:n]
 			out[0] = '['
@@ -348,7 +357,7 @@ func (f *frame) body(r *rand.Rand) (body []byte, declared uint32) {
 				full = cached("gzbomb:max", func() []byte {
 					out := content(f.K, "bad", maxBody, r)
 					out = append([]byte(nil), out...)
-					copy(out, cache["gzbomb"])
+					copy(out, cached("gzbomb", nil))
 					return out
 				})
 			}
@@ -667,7 +676,7 @@ func selfTest(env *fw.Env, acc []*fw.Trace) []*fw.Trace {
 			func(c *fw.Trace) { c.Events[1]["timedOut"] = true },
 			func(c *fw.Trace) { c.Events[2]["timedOut"] = true },
 			func(c *fw.Trace) { c.Events[1]["allocKiB"] = int64(6*16384 + 1024 + 1) },
-			func(c *fw.Trace) { c.Events[2]["allocKiB"] = int64(40 * 16384) },
+			func(c *fw.Trace) { c.Events[2]["allocKiB"] = int64(12*16384 + 1024 + 1) },
 			func(c *fw.Trace) { c.Events[1]["outcome"] = "Reply" },
 			func(c *fw.Trace) { c.Events[2]["outcome"] = "Packet" },
 			func(c *fw.Trace) { c.Events = c.Events[:1] }, // no report at all
@@ -769,7 +778,7 @@ func main() {
 		NonTrivial:  func(t *fw.Trace) bool { return len(t.Events) >= 2 },
 		Rule: "one case per hostile frame class of spec/Framing.tla (type/flag class x length-field truncation x declared-size class {0,small,16MiB,16MiB+1,2^32-1} x body availability x gzip class {ratio~1, small->just-within-limit, bomb 10x limit, corrupt, truncated} x payload class {empty, not JSON, JSON of another shape, well-formed, huge}), concretised with seeded filler, plus seeded random byte strings and single-bit mutants of valid packets; each fed to the real ReadPacket and, when it decodes, to the real SessionManager.HandlePacket on a fresh connection; non-trivial = ReadPacket was reached",
 		Assumptions: []string{
-			"allocation = runtime.MemStats.TotalAlloc delta around the call (process-wide; one call at a time, GC and background tickers covered by the 1 MiB slack); bound 6 x 16 MiB + 1 MiB (DESIGN.md Appendix B)",
+			"allocation = runtime.MemStats.TotalAlloc delta around the call (process-wide; one call at a time, GC and background tickers covered by the 1 MiB slack); bound for ReadPacket 6 x 16 MiB + 1 MiB (DESIGN.md Appendix B), for HandlePacket 12 x 16 MiB + 1 MiB (spec/FramingTrace.tla)",
 			"hang = the call has not returned after 40 s (largest legitimate case measured: well under 2 s)",
 			"memory retained after the call is not measured; handlers' goroutines (config push) run outside the measured window",
 			"the server is assembled in-process from the real components on memory storage, without listeners; it is rebuilt every 150 cases"},
